@@ -218,7 +218,10 @@ func newWorld(r *explore.Run, skip map[string]bool) *world {
 	w := &world{r: r, xrd: xrh.XRD(), skip: skip, current: "A"}
 	w.revC = &simkube.Client{Name: revClient}
 	w.xrC = &simkube.Client{Name: xrClient}
-	w.inj = &prefixInjector{fi: &xrh.FaultInjector{Run: r, Reads: true}}
+	w.inj = &prefixInjector{fi: &xrh.FaultInjector{Run: r, Reads: true, NotFoundReads: true,
+		// (Not for the Composition itself: the reconcile request comes from
+		// the cache that serves it; a 404 there means it was deleted.)
+		NotFoundFilter: func(c simkube.Call) bool { return c.Key.Kind != "Composition" }}}
 	return w
 }
 
